@@ -66,4 +66,9 @@ CHECKS = {
         technique='Hypothesis-generated label arrays x warper pipelines/components vs order / finiteness / no-mutation / round-trip oracle',
         text='Label arrays (length 1..60, magnitudes 1e-30..1e30, engineered duplicates and constants, outliers up to 1e80, NaN and -inf in 0-90 percent of positions, re-use of one warper object) are pushed through create_default_warper and create_warp_outliers_warper in every flag combination and through each component alone (on the inputs its docstring admits). Oracle independent of the implementation: same shape, finite output, input arrays unchanged (warp and unwarp), infeasible entries no higher than the worst feasible one, the default pipeline preserves ranking strictly (equal stay equal, distinct stay distinct, up to the stated float resolution), no warper reverses two observed values, documented shortcuts for constant / all-infeasible input, unwarp(warp(y)) returns y.',
         note='float-resolution allowances are listed in props/c18.py ASSUMPTIONS; float64 labels only; unwarp checked at warped observed values'),
+    'C13': dict(
+        category=EXPL,
+        technique='A/B differential: live designer vs designer rebuilt by dump -> fresh instance -> load at Hypothesis-generated restart masks, over three serialization paths',
+        text='For grid, shuffled grid, quasi-random, eagle, NSGA-II and CMA-ES a live instance and one rebuilt (dump, fresh instance with the same constructor arguments, load) after the steps of a generated restart mask receive identical generated histories (batches 1..5, ties, infeasible and pending trials); the dump travels as a Metadata object, as StudyConfig proto bytes, or through a real service on a re-created SQLite file; time.time is patched to changing values. Deterministic designers: suggestions, suggestion metadata and dump() equal at every step. NSGA-II: public population arrays, phase and trials-seen counter via an injected recording Mutation / adaptation_callable. CMA-ES: dumped state (incl. PRNG key) and suggestions. Service clause: GRID / SHUFFLED_GRID / QUASI_RANDOM / EAGLE hosted with the default policy factory across servicer re-creations; suggestions and saved state equal a live designer\'s and the first G<=48 grid suggestions are distinct and cover the independently computed grid.',
+        note='run A (the live instance) is the reference; NSGA-II sampler RNG is not part of the documented state; flat spaces; bounds tamed to what the designers accept'),
 }
